@@ -84,9 +84,16 @@ def zero_leaves(fl, rf, loop):
         if e.kind == 'reset' and fl.tab.equal(e.new, rf):
             return loop in e.loops
         if e.kind == 'assign' and e.op is None and isinstance(e.value, RF) and \
-                fl.tab.equal(e.value, rf):
+                any(fl.tab.equal(x, rf) for x in _guard_leaves(fl, e.value)):
             return loop in e.loops
     return False
+
+
+def _guard_leaves(fl, rf):
+    at = atom_of(fl, rf)
+    if at is not None and at.head == 'guard' and isinstance(at.args[1], RF) and isinstance(at.args[2], RF):
+        return _guard_leaves(fl, at.args[1]) + _guard_leaves(fl, at.args[2])
+    return [rf]
 
 
 def run(ix, R):
